@@ -112,4 +112,8 @@ func TestPanicOriginClassification(t *testing.T) {
 	if panicOriginInLibrary([]byte(own)) {
 		t.Fatal("a panic raised by the checker's own comparator is a tool error")
 	}
+	reraised := "goroutine 1 [running]:\nruntime/debug.Stack()\n\tx\nmain.panicViol()\n\tx\npanic({0x1, 0x2})\n\tx\nmain.iterMutCheck.func2.1()\n\tx\npanic({0x1, 0x2})\n\tx\ngithub.com/emirpasic/gods/v2/lists/singlylinkedlist.(*Iterator[...]).Next(...)\n\tx\nmain.iterMutCheck.func2()\n\tx\n"
+	if !panicOriginInLibrary([]byte(reraised)) {
+		t.Fatal("a library panic re-raised by a handler of the checker is still a library panic")
+	}
 }
